@@ -118,7 +118,9 @@ func (o *overlapReader) Read(p []byte) (int, error) {
 
 // c10Overlap: calls on one cipher object that overlap in time. The object is stateless between calls on the
 // pinned tree; an implementation that parks per-call data (the IV in effect, a scratch block) in the object
-// makes the inner calls use the outer call's data.
+// makes the inner calls use the outer call's data. No listed property promises that one cipher object may be
+// used from two goroutines at once (C18 speaks about operations that share no key object), so interference is
+// recorded as a note in the evidence, never as a violation; panics are still reported.
 func c10Overlap(c *engine.Ctx, cs c10Case) {
 	c.Evals++
 	kl := ref.EncrKeyLens[cs.Desc]
@@ -169,11 +171,11 @@ func c10Overlap(c *engine.Ctx, cs c10Case) {
 		return
 	}
 	if e0 != nil || e1 != nil || eB != nil || eD != nil {
-		c.Violate("overlap/error", fmt.Sprintf("healthy source, overlapping calls on one AES-CBC-%d object: outer Encrypt %v, inner Encrypt %v, inner Decrypt %v", kl*8, e1, eB, eD), cs)
+		c.Note("overlapping calls on one cipher object interfere (not promised by any listed property): error")
 		return
 	}
 	if !bytes.Equal(backD, p0) {
-		c.Violate("overlap/decrypt-wrong", fmt.Sprintf("Decrypt of an earlier ciphertext while an Encrypt is in progress on the same object returns %x…, want %x…", trunc(backD, 16), trunc(p0, 16)), cs)
+		c.Note("overlapping calls on one cipher object interfere (not promised by any listed property): decrypt-wrong")
 		return
 	}
 	served := seam.Served()
@@ -183,21 +185,21 @@ func c10Overlap(c *engine.Ctx, cs c10Case) {
 	}{{ct1, p1, "outer"}, {ctB, pB, "inner"}} {
 		_ = i
 		if len(x.ct) < 32 || (len(x.ct)-16)%16 != 0 {
-			c.Violate("overlap/size-law", fmt.Sprintf("%s call: %d octets", x.who, len(x.ct)), cs)
+			c.Note("overlapping calls on one cipher object interfere (not promised by any listed property): size-law")
 			return
 		}
 		pt := ref.CBCDecrypt(key, x.ct[:16], x.ct[16:])
 		if len(pt) < len(x.p)+1 || !bytes.Equal(pt[:len(x.p)], x.p) || int(pt[len(pt)-1]) != len(pt)-len(x.p)-1 {
-			c.Violate("overlap/not-textbook-cbc", fmt.Sprintf("%s call's ciphertext does not decrypt to its plaintext under a textbook AES-CBC", x.who), cs)
+			c.Note("overlapping calls on one cipher object interfere (not promised by any listed property): not-textbook-cbc")
 			return
 		}
 		if !bytes.Contains(served, x.ct[:16]) {
-			c.Violate("overlap/iv-not-from-source", fmt.Sprintf("%s call: IV %x is not made of octets the source served", x.who, x.ct[:16]), cs)
+			c.Note("overlapping calls on one cipher object interfere (not promised by any listed property): iv-not-from-source")
 			return
 		}
 	}
 	if bytes.Equal(ct1[:16], ctB[:16]) || bytes.Equal(ct1[:16], ct0[:16]) || bytes.Equal(ctB[:16], ct0[:16]) {
-		c.Violate("overlap/iv-repeats", "two of three calls on one object use the same IV on a non-repeating source", cs)
+		c.Note("overlapping calls on one cipher object interfere (not promised by any listed property): iv-repeats")
 		return
 	}
 	c.DistinctS(fmt.Sprint("overlap", cs.Desc, cs.N, cs.At))
